@@ -2,8 +2,9 @@
 
 crash (stack overflow / abort): run the single case again under gdb; the signature is the set of
 chialisp functions that occur at least three times in the top 400 frames (the recursion cycle).
-hang: start the case, attach after `settle` seconds, take the three most frequent chialisp
-functions on the stack (the loop or recursion being executed).
+hang: start the case, attach after `settle` seconds; the signature is the outermost chialisp frame
+(the entry point that does not return) plus the type/module that occurs most often on the stack
+(where the time goes) — stable across sampling moments.
 Both are computed on a re-run of the one blamed case only."""
 import os
 import re
@@ -56,18 +57,44 @@ def hang_signature(cmd, env, cwd, settle=25):
         time.sleep(settle)
         if p.poll() is not None:
             return None, f"terminated by itself (rc={p.returncode})"
-        g = subprocess.run(["gdb", "-q", "-batch", "-p", str(p.pid), "-ex", "set pagination off", "-ex", "thread apply all bt 400"], stdout=subprocess.PIPE, stderr=subprocess.STDOUT, text=True, timeout=120)
-        fr = _frames(g.stdout)
+        g = subprocess.run(["gdb", "-q", "-batch", "-p", str(p.pid), "-ex", "set pagination off", "-ex", "thread apply all bt 300", "-ex", "echo ===OUTER===\\n", "-ex", "thread apply all bt -40"], stdout=subprocess.PIPE, stderr=subprocess.STDOUT, text=True, timeout=120)
+        inner_txt, _, outer_txt = g.stdout.partition("===OUTER===")
+        fr = _frames(inner_txt)
+        outer = _frames(outer_txt)
     finally:
         p.kill()
         p.wait()
     if not fr:
         return None, "no chialisp frames"
-    counts = {}
-    for i, f in enumerate(fr):
-        counts.setdefault(f, [0, i])[0] += 1
-    top = sorted(counts.items(), key=lambda kv: (-kv[1][0], kv[1][1]))[:3]
-    return "hang:" + "+".join(sorted(k for k, _ in top)), None
+    # entry point: the outermost chialisp frame; where: the compiler phase that occurs most often
+    entry = (outer or fr)[-1]
+    phases = {}
+    for f in fr:
+        ph = _phase(f)
+        if ph:
+            phases[ph] = phases.get(ph, 0) + 1
+    where = sorted(phases.items(), key=lambda kv: (-kv[1], kv[0]))[0][0] if phases else "other"
+    # (`where` proved unstable across sampling moments; only the entry point is used)
+    _ = where
+    return f"hang:{entry}", None
+
+
+PHASES = [
+    ("frontend", ("frontend", "preprocessor", "macros", "rename")),
+    ("evaluator", ("evaluate", "evaluator")),
+    ("codegen", ("codegen", "inline", "lambda")),
+    ("optimizer", ("optimize", "cse", "deinline", "depgraph", "above22", "strategy", "brief", "double_apply")),
+    ("stepper", ("clvm::", "cldb")),
+    ("classic", ("stage_2", "stage_0", "binutils", "reader", "operators")),
+]
+
+
+def _phase(fn):
+    low = fn.lower()
+    for name, keys in PHASES:
+        if any(k in low for k in keys):
+            return name
+    return None
 
 
 def still_running_after(cmd, env, cwd, seconds):
